@@ -1,12 +1,8 @@
-// Package props registers every property's correspondence check.
+// Package props gives access to every registered property check; the packages register
+// themselves (fw.Register) and are imported by the generated all_gen.go.
 package props
 
-import (
-	"github.com/onosproject/onos-config/verifharness/internal/fw"
-	"github.com/onosproject/onos-config/verifharness/props/c16"
-)
+import "github.com/onosproject/onos-config/verifharness/internal/fw"
 
 // All maps property ids to their checks.
-var All = map[string]*fw.Prop{
-	"C16": c16.Prop,
-}
+var All = fw.Registry
